@@ -68,7 +68,7 @@ func nestableTags(p *core.Program, r *core.Report, rule string) map[string]bool 
 
 // C07: retained text keeps its list/quote/pre nesting; data tables are kept whole.
 func C07(p *core.Program, r *core.Report) {
-	r.Explanation = "N1 (balanced placeholders): all decision paths of the converter's element visitor are enumerated with the start-tag emission as an event; a path that emits a start tag may only end in `return false` if it is conditioned on a tag that CanBeNested rejects (so for nestable tags the exit handler always runs); start and end emission are both guarded by CanBeNested(TagName(node)) and carry TagName(node); node.Data is only rewritten to non-nestable constants on non-nestable tags. N3: one iteration of NestedElementRetainer.Process is extracted as a transition function: any non-tag element contributes its content flag, a start tag records and resets the flag, an end tag marks both tags alike. N2: data tables are cloned and serialised as one unit from a clone that is append-only collected (no pruning after collection) and text rooted at a nestable element returns InnerHTML. N4: what counts as a visible descendant of a data table is the documented visibility decision list (shared with C04-V3). N5: NestedElementRetainer is the last of the three document filters on every path of ExtractContent (shared with C08-E1), so no content flag changes after the stack pass."
+	r.Explanation = "N1 (balanced placeholders): all decision paths of the converter's element visitor are enumerated with the start-tag emission as an event; a path that emits a start tag may only end in `return false` if it is conditioned on a tag that CanBeNested rejects (so for nestable tags the exit handler always runs); start and end emission are both guarded by CanBeNested(TagName(node)) and carry TagName(node); node.Data is only rewritten to non-nestable constants on non-nestable tags. N3: one iteration of NestedElementRetainer.Process is extracted as a transition function: any non-tag element contributes its content flag, a start tag records and resets the flag, an end tag marks both tags alike. N2: data tables are cloned and serialised as one unit from a clone that is append-only collected (no pruning after collection) and text rooted at a nestable element returns InnerHTML. N4: what counts as a visible descendant of a data table is the documented visibility decision list (shared with C04-V3). N5: NestedElementRetainer is the last of the three document filters on every path of ExtractContent (shared with C08-E1), so no content flag changes after the stack pass. N7: a placeholder is appended behind the text that precedes it - every builder method that appends an element flushes the pending text first (shared with C02-O5). N4 is also what decides whether a media element exists at all (see C08-E7)."
 	r.NotCovered = "the integer stack/stackMark arithmetic of the retainer for nested pairs (only its boolean part and the pairing of SetIsContent calls are decided); the HTML parser re-nesting the emitted string; partial-list semantics."
 
 	if !checkPlaceholderBalance(p, r, "N1") {
